@@ -128,8 +128,9 @@ class Report(object):
             'wall_s': round(wall, 2),
             'violations': len(self.violations),
         }
-        os.makedirs(os.path.join(VERIF, 'evidence'), exist_ok=True)
-        path = os.path.join(VERIF, 'evidence', '%s.json' % self.prop)
+        evdir = os.environ.get('VERIF_EVIDENCE_DIR') or os.path.join(VERIF, 'evidence')
+        os.makedirs(evdir, exist_ok=True)
+        path = os.path.join(evdir, '%s.json' % self.prop)
         with open(path, 'w') as f:
             json.dump(ev, f, indent=1, default=str)
         log('[%s] obligations=%d discharged=%d inconclusive=%d known=%d violations=%d broken=%d wall=%.1fs'
